@@ -308,6 +308,7 @@ func (d *badgerNodeDB) cleanMultipartLocked(removeNodes bool) error {
 		if err = rootsTx.CommitAt(tsMetadata, nil); err != nil {
 			return err
 		}
+		verifhook.At("badger.cleanMultipart.afterRootsMetadataCommit")
 	}
 
 	// Flush batch first. If anything fails, having corrupt
